@@ -37,6 +37,9 @@ META = {
         "range steps enumerated in {+-1, +-2, +-3, 5, -7}; enumerations with 1..3 members (values unbounded); "
         "the 2-member case is the inductive step of the member fold for every reachable accumulator",
         "tier B obligations: widths <= 12, values within +-2^14 (stated as bounded, not counted as unbounded)",
+        "tier U models len(range), range indexing and truthiness as total mathematical functions; CPython's len() raises "
+        "OverflowError above sys.maxsize (that is how D22 escaped the symbolic obligations) -- the concrete boundary sweep "
+        "(2^k + d, k <= 300 / 1200) runs the real helpers on real integers across that limit",
     ],
     "bounds": {"quick": {"Wb": 8}, "thorough": {"Wb": 12}},
     "explanation": "function contracts on shape/constant helpers",
@@ -361,6 +364,65 @@ def unit_memory_init():
 STEPS = [1, 2, 3, -1, -2, -3, 5, -7]
 
 
+def unit_boundary_sweep(K):
+    """BOUNDED, concrete: the helpers on every integer 2^k + d (|d| <= 2, k <= K) against exact integer arithmetic.  It
+    duplicates what the unbounded obligations prove, on purpose: if a change moves a helper outside the verifiable subset
+    (floating point, string formatting) the symbolic tasks can only report 'unsupported'; this sweep still pins the
+    documented results on the values where width computations go wrong and yields a concrete failing input."""
+    from amaranth.utils import ceil_log2, bits_for, exact_log2
+    from amaranth.hdl import Const, Shape, Signal
+    n_cases = 0
+    bad = None
+
+    for k in range(0, K + 1):
+        for d in (-2, -1, 0, 1, 2):
+            n = (1 << k) + d
+            if n < 0:
+                continue
+            n_cases += 1
+            want_cl = 0 if n <= 1 else (n - 1).bit_length()
+            try:
+                got = ceil_log2(n)
+            except Exception as e:
+                got = repr(e)
+            if got != want_cl and bad is None:
+                bad = {"call": "ceil_log2(n)", "n": n, "n as": f"2**{k}{d:+d}", "returned": got, "expected": want_cl}
+            if n == 0:
+                continue                 # the zero cases are the symbolic obligations' (bits_for(0) == 1, range(1) -> unsigned(0))
+            # bits_for / Const / Shape.cast(range) against the defining inequalities
+            try:
+                b = bits_for(n)
+                ok = (n < (1 << b)) and (b == 0 or n >= (1 << (b - 1)) or n == 0) and (n != 0 or b == 0 or b == 1)
+                bn = bits_for(-n) if n > 0 else None
+                okn = bn is None or (-(1 << (bn - 1)) <= -n and (bn == 1 or -n < -(1 << (bn - 2))))
+                c = Const(n)
+                okc = c.value == n and not c.shape().signed and n < (1 << c.shape().width) and (c.shape().width == 0 or n >= (1 << (c.shape().width - 1)))
+                cn = Const(-n) if n > 0 else None
+                okcn = cn is None or (cn.value == -n and cn.shape().signed and -(1 << (cn.shape().width - 1)) <= -n)
+                sh = Shape.cast(range(n + 1))
+                oks = not sh.signed and n < (1 << sh.width) and (sh.width == 0 or n >= (1 << (sh.width - 1)))
+                si = Signal(range(0, n + 1), init=n).init if n > 0 else 0
+                oki = si == n
+                if not (ok and okn and okc and okcn and oks and oki) and bad is None:
+                    bad = {"n": n, "n as": f"2**{k}{d:+d}", "bits_for(n)": b, "bits_for(-n)": bn, "Const(n)": repr(c), "Const(-n)": repr(cn),
+                           "Shape.cast(range(n+1))": repr(sh), "Signal(range(n+1), init=n).init": si}
+            except Exception as e:
+                if bad is None:
+                    bad = {"n": n, "n as": f"2**{k}{d:+d}", "exception": repr(e)}
+            if n > 0 and d == 0:
+                try:
+                    if exact_log2(n) != k and bad is None:
+                        bad = {"call": "exact_log2(n)", "n": n, "returned": exact_log2(n), "expected": k}
+                except Exception as e:
+                    if bad is None:
+                        bad = {"call": "exact_log2(n)", "n": n, "exception": repr(e)}
+    ok = bad is None
+    return {"task": "boundary-sweep", "paths": n_cases, "solver_s": 0.0, "obligations": [
+        {"name": f"boundary-sweep::2^k+d::k<={K}", "kind": "bounded", "status": "proved" if ok else "refuted", "backend": "cpython", "time_s": 0.0,
+         **({} if ok else {"failing_input": {**bad, "how": "amaranth.utils / hdl helpers called on this integer"}})}],
+        "bounded": [{"name": "width helpers at 2^k + d", "bound": f"k <= {K}, |d| <= 2", "cases": n_cases, "failures": 0 if ok else 1}]}
+
+
 def tasks(tier):
     Wb = 8 if tier == "quick" else 12
     ts = [("ceil_log2",), ("bits_for", False), ("bits_for", True), ("exact_log2", Wb), ("shape_init",),
@@ -368,6 +430,7 @@ def tasks(tier):
           ("init_value", Wb), ("memory_init",)]
     ts += [("cast_range", st) for st in STEPS]
     ts += [("plain_enum", n) for n in ((1, 2) if tier == "quick" else (1, 2, 3))]
+    ts += [("boundary-sweep", 300 if tier == "quick" else 1200)]
     return ts
 
 
@@ -388,6 +451,8 @@ def _as_result(name, xs, tierU=False):
 def run_task(task):
     k = task[0]
     name = repr(task).replace(" ", "")
+    if k == "boundary-sweep":
+        return unit_boundary_sweep(task[1])
     if k == "ceil_log2":
         return _as_result(name, unit_ceil_log2(), True)
     if k == "bits_for":
